@@ -1135,6 +1135,8 @@ class InstGen:
         items = []
         if f.mixed and rng.random() < 0.5:
             items.append(rng.choice(["mixed text", "m", "ä b"]))  # leading text; later text lives in AnyElement.tail
+            if self.adjacent_text and rng.random() < 0.3:
+                items.append(rng.choice(["more", " and more", "x"]))  # two text items in a row are one run of character data
         for _ in range(rng.randrange(0, 4)):
             if models and not f.mixed and rng.random() < 0.4:
                 self.wildcard_model_count += 1
@@ -1148,6 +1150,7 @@ class InstGen:
 
     wildcard_models = True
     wildcard_model_count = 0
+    adjacent_text = False  # adjacent text items in mixed content cannot be told apart after a round trip: only for output checks
 
     def wildcard_model_classes(self, f, class_ns):
         """Model classes whose instances may sit in wildcard field f: a known global element inside a
